@@ -316,7 +316,9 @@ func (s Server) Serve(c context.Context, conn network.Conn) (err error) {
 			}
 		}
 
-		connectionClose = s.DisableKeepalive || ctx.Request.Header.ConnectionClose()
+		// When the ContinueHandler refuses the body, the client may already have sent it (or may still send it):
+		// the connection cannot be reused, otherwise the body bytes would be parsed as the next request.
+		connectionClose = s.DisableKeepalive || ctx.Request.Header.ConnectionClose() || !continueReadingRequest
 		isHTTP11 = ctx.Request.Header.IsHTTP11()
 
 		if serverName != nil {
